@@ -65,7 +65,12 @@ impl Distribution<f64> for ExpRestricted01 {
             if self.c1 * y <= (1. - x) {
                 return x;
             }
-            if y * self.c1 * self.lambda <= (self.lambda * (1. - x)).exp_m1() {
+            if self.c1.is_finite() {
+                if y * self.c1 * self.lambda <= (self.lambda * (1. - x)).exp_m1() {
+                    return x;
+                }
+            } else if y * -(-self.lambda).exp_m1() <= (-self.lambda * x).exp() - (-self.lambda).exp() {
+                // exp(lambda) overflows (lambda > 709.78): the same test with both sides divided by exp(lambda)
                 return x;
             }
         }
